@@ -289,11 +289,19 @@ def check(ctx):
         cl = ctx.need(ci.methods.get("cleanup"), f"{ci.name}.cleanup")
         selected = {}
         sources = []
+        def key_name(target, it):
+            # `for k in d` / `for k in d.keys()` / `for k, v in d.items()`: the name that holds the key
+            if isinstance(target, ast.Name):
+                return target.id
+            if isinstance(target, ast.Tuple) and len(target.elts) == 2 and isinstance(target.elts[0], ast.Name) \
+                    and ast.unparse(it).endswith(".items()"):
+                return target.elts[0].id
+            return None
         for n in walk_no_nested(cl):
-            if isinstance(n, ast.For) and isinstance(n.target, ast.Name) and "__dict__" in ast.unparse(n.iter):
+            if isinstance(n, ast.For) and key_name(n.target, n.iter) and "__dict__" in ast.unparse(n.iter):
                 sources.append(("loop", n))
             elif isinstance(n, (ast.ListComp, ast.GeneratorExp, ast.SetComp)) and len(n.generators) == 1 \
-                    and isinstance(n.generators[0].target, ast.Name) and "__dict__" in ast.unparse(n.generators[0].iter):
+                    and key_name(n.generators[0].target, n.generators[0].iter) and "__dict__" in ast.unparse(n.generators[0].iter):
                 sources.append(("comp", n))
         if not sources:
             ctx.undecided("R-TABLE/cleanup-names", f"{ci.qual}.cleanup", ci.where(cl), "no scan of the attribute map found", key="scan")
@@ -303,13 +311,15 @@ def check(ctx):
             it_ = _sy.Interp(fold=lambda e: repo.fold(ci.mod, e), log_calls=True)
             if kind == "loop":
                 sel = False
-                for p_ in it_.loop_body(node, {node.target.id: w}):
+                for p_ in it_.loop_body(node, {key_name(node.target, node.iter): w}):
                     if any(e[0] == "ecall" and isinstance(e[1], tuple) and e[1][0] == "call" and isinstance(e[1][1], tuple) and e[1][1][0] == "attr"
-                           and e[1][1][2] in ("append", "add") and e[1][2] == (w,) for e in p_.effects):
+                           and e[1][1][2] in ("append", "add") and len(e[1][2]) == 1 and (
+                               e[1][2][0] == w or (isinstance(e[1][2][0], tuple) and e[1][2][0] and e[1][2][0][0] == "tuple"
+                                                   and e[1][2][0][1] and e[1][2][0][1][0] == w)) for e in p_.effects):
                         sel = True
                 selected[w] = sel
             else:
-                st_ = _sy.PathState({node.generators[0].target.id: w}, [], [])
+                st_ = _sy.PathState({key_name(node.generators[0].target, node.generators[0].iter): w}, [], [])
                 vals = [it_.truth(it_.ev(c, st_)) for c in node.generators[0].ifs]
                 selected[w] = None if any(v is None for v in vals) else all(vals)
         missed = [w for w in witnesses if selected.get(w) is False]
